@@ -166,6 +166,16 @@ HANDLERS = ["h1", "h2", "H3", "h-4"]
 # ---------------------------------------------------------------------------
 # XML rendering
 
+def _extra(a, c):
+    """Apply c['extra_attrs'] (value None removes the attribute)."""
+    ex = c.get("extra_attrs")
+    if not ex:
+        return a
+    a = [(k, v) for k, v in a if k not in ex]
+    a.extend((k, v) for k, v in ex.items() if v is not None)
+    return a
+
+
 def _child_xml(c, out, ind):
     a = []
     if c["kind"] in ("key", "multikey"):
@@ -183,6 +193,7 @@ def _child_xml(c, out, ind):
             a.append(("handler", c["handler"]))
         if c.get("default") is not None:
             a.append(("default", c["default"]))
+        a = _extra(a, c)
         attrs = "".join(" %s=%s" % (k, quoteattr(v)) for k, v in a)
         defaults = c.get("defaults") or []
         if not defaults:
@@ -190,7 +201,7 @@ def _child_xml(c, out, ind):
         else:
             out.append("%s<%s%s>" % (ind, c["kind"], attrs))
             for d in defaults:
-                if c["name"] == "+":
+                if isinstance(d, (list, tuple)):
                     out.append("%s  <default key=%s>%s</default>"
                                % (ind, quoteattr(d[0]), escape(d[1])))
                 else:
@@ -207,8 +218,13 @@ def _child_xml(c, out, ind):
             a.append(("required", "yes"))
         if c.get("handler"):
             a.append(("handler", c["handler"]))
+        a = _extra(a, c)
         attrs = "".join(" %s=%s" % (k, quoteattr(v)) for k, v in a)
-        out.append("%s<%s%s/>" % (ind, c["kind"], attrs))
+        if c.get("inner_xml"):
+            out.append("%s<%s%s>%s</%s>" % (ind, c["kind"], attrs,
+                                            c["inner_xml"], c["kind"]))
+        else:
+            out.append("%s<%s%s/>" % (ind, c["kind"], attrs))
 
 
 def render_xml(model):
@@ -232,13 +248,18 @@ def render_xml(model):
                 a.append((k, t[k]))
         if t.get("datatype"):
             a.append(("datatype", DT_DOTTED[t["datatype"]]))
+        a = _extra(a, t)
         out.append("  <sectiontype%s>" % "".join(
             " %s=%s" % (k, quoteattr(v)) for k, v in a))
         for c in t["children"]:
             _child_xml(c, out, "    ")
+        if t.get("inner_xml"):
+            out.append("    " + t["inner_xml"])
         out.append("  </sectiontype>")
     for c in model["children"]:
         _child_xml(c, out, "  ")
+    if model.get("inner_xml"):
+        out.append("  " + model["inner_xml"])
     out.append("</schema>")
     return "\n".join(out) + "\n"
 
